@@ -463,6 +463,6 @@ func init() {
 			"user-visible comparison: a deletion marker and a missing key both read as absent",
 			"versions are assigned in increasing order starting at 8 (crossing the 9->10 digit boundary)",
 		},
-		QuickS: 60, ThoroughS: 1200,
+		QuickS: 100, ThoroughS: 1200,
 	}
 }
